@@ -172,6 +172,9 @@ class ExprMixin:
                         return self.global_name(attr, st)
                     finally:
                         st.mod = saved
+            for k_, v_ in self.stubs.consts.items():
+                if (d + '.' + attr) == k_ or (d + '.' + attr).endswith('.' + k_):
+                    return v_
             return self.resolve_dotted(d + '.' + attr) if (d + '.' + attr) in self.w.bases or \
                 ('.'.join((d + '.' + attr).split('.')[-2:]) in self.w.bases) else SExt(d + '.' + attr)
         if isinstance(sv, SExt):
